@@ -72,7 +72,7 @@ Definition cause (s : shared) (r : Z) : Prop :=
 Definition pc_ok (s : shared) (p : pc) : Prop :=
   match p with
   | R_swapT r | R_unreg r | R_unreg2 r | R_term0 r | R_term r => cause s r
-  | R_cb m _ | R_w1 m _ | R_w2 m _ | R_w3 m _ => In (mid m) (handled s)
+  | R_cb m _ | R_call m _ | R_w1 m _ | R_w2 m _ | R_w3 m _ => In (mid m) (handled s)
   | K_swapT => killed s = true
   | _ => True
   end.
@@ -167,7 +167,8 @@ Proof.
     all: try (right; eexists; split; [eassumption|]; first [left; eassumption | right; split; [eassumption|reflexivity]]).
     all: try (left; split; [reflexivity|]; destruct (Hown eq_refl) as [H|H]; [rewrite H in *; discriminate|apply HZ; exact H]).
     all: try (intros r0 E0; inversion E0; subst; left; split; [reflexivity|assumption]).
-    all: try (intros r0 Hr0; eapply cause_ext; [exact Hext|apply HT; exact Hr0]). }
+    all: try (intros r0 Hr0; eapply cause_ext; [exact Hext|apply HT; exact Hr0]).
+    all: try (intros _; apply HZ; reflexivity). }
   destruct Goal3 as (G1 & G2 & G3 & G4).
   split; [|split; assumption].
   destruct sp as [np|].
